@@ -199,6 +199,21 @@ def c_init(ctx, case):
         # the same trainer object already initialised another GMM on other data
         GMMMachine(k, max_fitting_steps=0, k_means_trainer=trainer).fit(X[::-1] * 1.5 + 1.0)
     g = GMMMachine(k, max_fitting_steps=0, k_means_trainer=trainer, mean_var_update_threshold=case["floor"])
+    # the machine may be a scikit-learn clone of the configured one, be rebuilt from its get_params(), or have been
+    # given (uniform or other) weights at construction: the k-means hand-over decides the starting weights all the same
+    import zlib
+
+    route = zlib.crc32(repr((k, float(case["floor"]), X.shape)).encode()) % 4
+    if route == 1:
+        from sklearn.base import clone
+
+        g = clone(g)
+    elif route == 2:
+        g = GMMMachine(**g.get_params(deep=False))
+    elif route == 3:
+        w0 = np.arange(1, k + 1, dtype=float)
+        g = GMMMachine(k, max_fitting_steps=0, k_means_trainer=trainer, mean_var_update_threshold=case["floor"], weights=w0 / w0.sum())
+    ctx.event("gmm built: %s" % ["directly", "by clone", "from get_params", "with constructor weights"][route])
     g.fit(data)
     floored = bool((np.asarray(kv) < case["floor"]).any())
     ctx.note(k >= 2, "dask" if case["dask"] else "numpy", "floor-active" if floored else "floor-inactive",
